@@ -395,6 +395,73 @@ Fixpoint gen_run_ops2 (H : text -> list N -> text) (dsz : text -> nat) (uni : N 
   end.
 Definition op2_of (bo : bool * gop) : bool * op := (fst bo, op_of (snd bo)).
 
+(* ================================================================== response callbacks of the APPLICATION (sixth round) *)
+(* Besides identify's reissue callback the application may register callbacks of its own that call forget() / remember()
+   while the response callbacks run (a logout view's callback, a "refresh the ticket" callback) and append the returned
+   headers to the response.  Pyramid runs the callbacks in registration order (request.py: popleft), so the order of
+   the Set-Cookie headers is the order of registration; the last Set-Cookie for a cookie is what the client keeps. *)
+Inductive cb := CbReissue (hs : list ck) | CbApp (o : gop).
+(* an operation during the request, or the registration of an application callback that will perform it *)
+Inductive xop := XOp (o : gop) | XReg (o : gop).
+
+Definition hdrs_of (x : out) : list ck := match x with OutHdr (Some hs) => hs | _ => [] end.
+Definition is_reissue_cb (x : cb) : bool := match x with CbReissue _ => true | CbApp _ => false end.
+(* the reissue callbacks an operation added *)
+Definition new_cbs (st st1 : state) : list cb := map CbReissue (skipn (length (callbacks st)) (callbacks st1)).
+
+Section Callbacks.
+Variable H : text -> list N -> text.
+Variable dsz : text -> nat.
+Variable uni : N -> N.
+
+(* _process_response_callbacks: what ends up on the response, in order *)
+Fixpoint run_cbs (c : cfg) (r : req) (st : state) (cbs : list cb) : list ck :=
+  match cbs with
+  | [] => []
+  | CbReissue hs :: rest => (if revoked st then [] else hs) ++ run_cbs c r st rest
+  | CbApp o :: rest => let '(st', x) := step H dsz uni c r st (op_of o) in hdrs_of x ++ run_cbs c r st' rest
+  end.
+
+Fixpoint gen_run_cbs (pol : bool) (c : cfg) (r : req) (st : state) (cbs : list cb) : list ck :=
+  match cbs with
+  | [] => []
+  | CbReissue hs :: rest => (if revoked st then [] else hs) ++ gen_run_cbs pol c r st rest
+  | CbApp o :: rest =>
+      let '(st', x) := if pol then gen_pstep H dsz uni c r st o else gen_step H dsz uni c r st o in
+      hdrs_of x ++ gen_run_cbs pol c r st' rest
+  end.
+
+(* the request: operations and registrations; the callbacks are collected in registration order *)
+Fixpoint run_ops3 (c0 : cfg) (r0 : req) (c1 : cfg) (r1 : req) (st : state) (cbs : list cb) (ops : list (bool * xop))
+  : state * list cb * list (option out) :=
+  match ops with
+  | [] => (st, cbs, [])
+  | (b, XOp o) :: rest =>
+      let '(st1, x) := if b then step H dsz uni c1 r1 st (op_of o) else step H dsz uni c0 r0 st (op_of o) in
+      let '(st2, cbs2, xs) := run_ops3 c0 r0 c1 r1 st1 (cbs ++ new_cbs st st1) rest in (st2, cbs2, Some x :: xs)
+  | (_, XReg o) :: rest =>
+      let '(st2, cbs2, xs) := run_ops3 c0 r0 c1 r1 st (cbs ++ [CbApp o]) rest in (st2, cbs2, None :: xs)
+  end.
+
+Fixpoint gen_run_ops3 (pol : bool) (c0 : cfg) (r0 : req) (c1 : cfg) (r1 : req) (st : state) (cbs : list cb)
+         (ops : list (bool * xop)) : state * list cb * list (option out) :=
+  match ops with
+  | [] => (st, cbs, [])
+  | (b, XOp o) :: rest =>
+      let '(st1, x) := if b then gen_step H dsz uni c1 r1 st o
+                       else if pol then gen_pstep H dsz uni c0 r0 st o else gen_step H dsz uni c0 r0 st o in
+      let '(st2, cbs2, xs) := gen_run_ops3 pol c0 r0 c1 r1 st1 (cbs ++ new_cbs st st1) rest in (st2, cbs2, Some x :: xs)
+  | (_, XReg o) :: rest =>
+      let '(st2, cbs2, xs) := gen_run_ops3 pol c0 r0 c1 r1 st (cbs ++ [CbApp o]) rest in (st2, cbs2, None :: xs)
+  end.
+End Callbacks.
+
+Definition xop_gop (x : xop) : gop := match x with XOp o => o | XReg o => o end.
+Definition is_reg (x : xop) : bool := match x with XReg _ => true | XOp _ => false end.
+(* the application callback registered LAST, if any *)
+Definition last_reg (ops : list (bool * xop)) : option gop :=
+  fold_left (fun acc bo => match snd bo with XReg o => Some o | XOp _ => acc end) ops None.
+
 (* ================================================================== wire glue *)
 Definition lookup_H (tbl : list (text * list N * text)) (alg : text) (msg : list N) : text :=
   match find (fun e => text_eqb (fst (fst e)) alg && text_eqb (snd (fst e)) msg) tbl with
@@ -447,7 +514,7 @@ Definition get_uarg (v : val) : option uarg :=
   end.
 
 (* 0 1 2: identify / remember / forget on the first helper; 3 4 5: the same on the second helper *)
-Definition get_op (v : val) : option (bool * gop) :=
+Definition get_gop (v : val) : option (bool * gop) :=
   match v with
   | VL [VI 0%Z] => Some (false, GIdentify)
   | VL [VI 1%Z; u; ma; toks] =>
@@ -460,6 +527,16 @@ Definition get_op (v : val) : option (bool * gop) :=
       Some (true, GRemember u ma toks)
   | VL [VI 5%Z] => Some (true, GForget)
   | _ => None
+  end.
+
+(* 6 7: the application registers a response callback that will call forget / remember on the first helper *)
+Definition get_op (v : val) : option (bool * xop) :=
+  match v with
+  | VL [VI 6%Z] => Some (false, XReg GForget)
+  | VL [VI 7%Z; u; ma; toks] =>
+      olet u := get_uarg u in olet ma := get_optZ ma in olet toks := get_texts toks in
+      Some (false, XReg (GRemember u ma toks))
+  | _ => option_map (fun bo : bool * gop => (fst bo, XOp (snd bo))) (get_gop v)
   end.
 
 Definition put_optT (o : option text) : val := vopt VT o.
@@ -560,11 +637,13 @@ Definition run_C09 (v : val) : val :=
         olet dt := get_list_of get_drow dt in olet ht := get_list_of get_Hrow ht in
         olet ut := get_list_of get_urow ut in
         let Hf := lookup_H ht in let dz := lookup_dsz dt in let ur := lookup_uni ut in
-        let '(st, outs0) := gen_run_ops2 Hf dz ur pol c r c1 r1 st0 ops in
+        let '(st_cbs, outs0) := gen_run_ops3 Hf dz ur pol c r c1 r1 st0 [] ops in
+        let st := fst st_cbs in let cbs := snd st_cbs in
         (* through the policy: policy.unauthenticated_userid on a fresh request (constant clock) is a last observation *)
         let outs_p := if pol then [VL [VI 3; put_ures (snd (gen_policy_userid Hf dz ur c (no_tick r) st0))]] else [] in
-        let outs := outs0 in
-        let resp := response_cookies st in
+        let outs := flat_map (fun x : option out => match x with Some o => [o] | None => [] end) outs0 in
+        (* response callbacks run in registration order, application callbacks at a constant clock *)
+        let resp := gen_run_cbs Hf dz ur pol c (no_tick r) st cbs in
         let fed := flat_map out_values outs ++ values_of resp in
         let fb := map (fun v => snd (gen_identify Hf dz ur (no_reissue c) (with_cookie (no_tick r) v) st0)) fed in
         let oc := match org with Some o => origin_cookie Hf o | None => None end in
@@ -587,17 +666,30 @@ Definition run_C09 (v : val) : val :=
                                   else VL [VI 0]
                       | None => VL [VI 0]
                       end in
-        let sops := map (fun bo : bool * gop => op_of (snd bo)) ops in
+        let sops := flat_map (fun bo : bool * xop => match snd bo with XOp o => [op_of o] | XReg _ => [] end) ops in
+        (* when the application callback registered last is a forget / a remember that goes through, its headers are the
+           LAST ones on the response (Proofs: explicit_callback_is_final) *)
+        let final := match last_reg ops with
+                     | Some o => if is_explicit Hf cs (no_tick r) (op_of o)
+                                 then VL [vlist put_ck (hdrs_of (snd (step Hf dz ur cs (no_tick r) st0 (op_of o))))]
+                                 else VL []
+                     | None => VL []
+                     end in
         let spec := VL [VL [vbool dok; vbool dok1]; expect; vlist put_ck (spec_response Hf dz ur cs r sops);
                         VL [VT (cookie_name cs); put_optT (spec_domain cs r); VT (path cs); vbool (secure cs);
-                            vbool (http_only cs); put_optT (samesite cs); put_optZ (max_age cs)]] in
+                            vbool (http_only cs); put_optT (samesite cs); put_optZ (max_age cs)];
+                        final] in
         (* ---- oracle queries of this run (for the constructed configuration and for the one the spec speaks about) *)
         let msgs_for := fun cc : cfg =>
-              flat_map (fun bo : bool * gop => if fst bo then [] else msgs_op Hf dz ur cc r (op_of (snd bo))) ops
+              flat_map (fun bo : bool * xop => if fst bo then [] else
+                                                 match snd bo with
+                                                 | XOp o => msgs_op Hf dz ur cc r (op_of o)
+                                                 | XReg o => msgs_op Hf dz ur cc (no_tick r) (op_of o)
+                                                 end) ops
               ++ flat_map (fun v => msgs_identify dz ur (no_reissue cc) (with_cookie (no_tick r) v)) fed
               ++ (if pol then msgs_op Hf dz ur cc (no_tick r) OIdentify else [])
               ++ msgs_identify dz ur cc r in
-        let msgs1 := flat_map (fun bo : bool * gop => if fst bo then msgs_op Hf dz ur c1 r1 (op_of (snd bo)) else []) ops in
+        let msgs1 := flat_map (fun bo : bool * xop => if fst bo then msgs_op Hf dz ur c1 r1 (op_of (xop_gop (snd bo))) else []) ops in
         let qs := flat_map (queries_of Hf (hashalg c) (secret c)) (msgs_for c)
                   ++ flat_map (queries_of Hf (hashalg cs) (secret cs)) (msgs_for cs)
                   ++ flat_map (queries_of Hf (hashalg c1) (secret c1)) msgs1
@@ -612,7 +704,8 @@ Definition run_C09 (v : val) : val :=
                      | None => []
                      end in
         let missing := filter (fun q => negb (has_H ht (fst q) (snd q))) qs in
-        Some (VL [VL [put_optT oc; VL (map put_out outs ++ outs_p); vlist put_ck resp; vlist put_idres fb];
+        let put_oout := fun x : option out => match x with Some o => put_out o | None => VL [VI 4] end in
+        Some (VL [VL [put_optT oc; VL (map put_oout outs0 ++ outs_p); vlist put_ck resp; vlist put_idres fb];
                   spec;
                   vlist (fun q => VL [VT (fst q); VT (snd q)]) missing])
     | _ => None
